@@ -392,6 +392,35 @@ fn enumerate_data(rep: &Report, words: &Mutex<HashSet<String>>) {
     rep.count("data-directive shapes enumerated", n as u64);
 }
 
+/// identifiers at the edge of the documented alphabet: names with non-ASCII letters / digits, combining marks, a
+/// leading digit or underscore, used as code label, data label, procedure, macro and macro parameter. Whether the
+/// assembler accepts such a name is not this property's business -- but what it accepts, the later stages must accept.
+fn enumerate_names(rep: &Report) {
+    let names = ["l\u{e9}", "boucle_r\u{e9}p", "l\u{663}", "l\u{df}1", "l\u{44f}", "\u{e9}l", "l\u{301}", "l\u{b7}x", "l\u{ba}", "_", "__", "_9", "l9_", "L\u{c9}", "l\u{ff11}", "x\u{2080}"];
+    let mut agg = FailAgg::new();
+    let mut loc = Local::default();
+    let mut vm = VM::new();
+    let mut n = 0u64;
+    for nm in names {
+        let texts = [
+            ("code-label", format!("start:\n{0}: mov ax,1\njmp {0}\n", nm)),
+            ("loop-label", format!("start:\nmov cx,2\n{0}:\nloop {0}\n", nm)),
+            ("data-label", format!("{0}: db 1\nstart:\nmov al, byte {0}\ninc byte {0}\nmov bx, offset {0}\n", nm)),
+            ("procedure", format!("def {0} {{ inc ax }}\nstart:\ncall {0}\n", nm)),
+            ("macro-name", format!("macro {0}(p) -> mov ax,p <-\nstart:\n{0}(5)\n", nm)),
+            ("macro-parameter", format!("macro mm({0}) -> mov ax,{0} <-\nstart:\nmm(5)\n", nm)),
+        ];
+        for (kind, text) in texts.iter() {
+            n += 1;
+            check_text(text, &format!("names:{}", kind), false, true, &mut agg, &mut loc, &mut vm, None);
+            loc.distinct.insert(fnv64(format!("names|{}|{}", kind, nm).as_bytes()));
+        }
+    }
+    agg.flush(rep);
+    loc.flush(rep);
+    rep.count("identifier-alphabet probes (names with non-ASCII / edge characters in every role)", n);
+}
+
 fn random_programs(rep: &Report, n: usize, seed: u64) {
     par_for(n, 16, |i| {
         let mut rng = Rng::new(seed).fork(0xC10_0000 + i as u64);
@@ -713,6 +742,7 @@ pub fn run(rep: &Report) {
     enumerate_mem_shapes(rep, &words);
     enumerate_plain_shapes(rep, &words);
     enumerate_data(rep, &words);
+    enumerate_names(rep);
     let t = rep.thorough();
     random_programs(rep, if t { 100_000 } else { 3000 }, rep.seed);
     cli_pass(rep, if t { 4000 } else { 150 }, rep.seed);
